@@ -276,6 +276,8 @@ fn install_panic_hook() {
                     r.crate_panics.push(text.clone());
                 }
             });
+            // also on stderr: if the panic cannot unwind (inside a destructor, say) the process aborts before any report is written
+            eprintln!("CRATE-PANIC {}", text.replace('\n', " "));
             crate::viol::report("C13", "crate-panic", text);
             crate::viol::POISONED.store(true, Relaxed);
         } else {
